@@ -15,6 +15,9 @@ prop(
         dict(run="^TestPropBinary$",
              quick=dict(checks=4, shards=4, timeout=900, shrinktime="8s"),
              thorough=dict(checks=64, shards=16, timeout=7200)),
+        dict(run="^TestPropBinaryCI$",
+             quick=dict(checks=4, shards=4, timeout=900, shrinktime="8s"),
+             thorough=dict(checks=64, shards=16, timeout=7200)),
     ],
     rule="each generated document = a pint configuration enabling every configurable check kind (aggregate, annotation, label, cost, "
          "alerts, reject, link, for, keep_firing_for, name, range_query, report; spread over 1-4 rule{} blocks, random severities, 1-2 "
@@ -27,7 +30,7 @@ prop(
          "only the listed name) + 1-5 rule files made of rules written to "
          "trigger every reporter (plus a removed file for rule/dependency and a broken file for parse errors); EVERY document is tested "
          "against all 27 names x {checks{disabled}, --disabled, rule{disable}, checks{enabled}, --enabled} + --offline (137 evaluations "
-         "per document incl. the default-enabled-list reference relation: default run == run with checks{enabled=[]}; the binary stage: 56 per document). Problems are compared as multisets keyed (file, rule, rule line, reporter, "
+         "per document incl. the default-enabled-list reference relation: default run == run with checks{enabled=[]}; the binary stages - `pint lint` and `pint ci` on a tiny git repository whose feature branch adds the rule files and removes one - : 57 per document incl. `--offline` == `--disabled <every online name>`). Problems are compared as multisets keyed (file, rule, rule line, reporter, "
          "summary, severity). Non-trivial: the name N reports at least one problem in the baseline and at least one other reporter does "
          "too (offline: both an online and an offline reporter present).",
     level_text="Generated-input search (rapid, fixed seeds) with a metamorphic oracle: the expected problem list of every variant is computed "
